@@ -4,14 +4,23 @@ from rtamt.explanation.stl.discrete_time.explanations import *
 from rtamt.exception.exception import RTAMTException
 
 
+from rtamt.syntax.node.stl.timed_always import TimedAlways
+from rtamt.syntax.node.stl.timed_historically import TimedHistorically
+from rtamt.syntax.node.stl.timed_eventually import TimedEventually
+from rtamt.syntax.node.stl.timed_once import TimedOnce
+
+
 class STLExplainer(LTLExplainer, StlAstVisitor):
+
+    ALL_OPERANDS = dict(LTLExplainer.ALL_OPERANDS)
+    ALL_OPERANDS.update({TimedAlways: True, TimedHistorically: True, TimedEventually: False, TimedOnce: False})
 
     def __init__(self):
         LTLExplainer.__init__(self)
 
 
     def visit(self, element, args):
-        return StlAstVisitor.visit(self, element, args)
+        return StlAstVisitor.visit(self, element, self.term_args(element, args))
 
 
     def explain(self, spec, to_samples=None):
